@@ -69,13 +69,31 @@ Definition ident_strict (s : string) : bool :=
 Definition ident_or_nl (s : string) : Prop :=
   ident_strict s = true \/ exists s', s = (s' ++ String (Ascii.ascii_of_nat 10) EmptyString)%string /\ ident_strict s' = true.
 
+(* ---- strictness.  Every shape below exists in two versions selected by [strict : bool]:
+   [true] is the documentation; [false] is the weaker statement that the unchanged schemas are
+   proved to enforce.  The differences (each one is a `_refuted` theorem in Props/C09.v):
+     S18  integer-valued properties: a float with an integral value passes for an integer
+     S14  static array: `length` is not required
+     S4   dynamic array: nothing but the class name is constrained
+     S19  enumeration: `mappings` may be null
+     S20  structure member names: a name that is not an identifier is accepted and its member
+          object is then unconstrained
+     S21  trace object: unknown properties are accepted
+     S22  names: an identifier followed by one newline is accepted *)
+Definition intP (strict : bool) : Z -> option Z -> json -> Prop :=
+  if strict then int_doc else int_val.
+Definition identP (strict : bool) (s : string) : Prop :=
+  if strict then ident_strict s = true else ident_or_nl s.
+Definition is_int (strict : bool) (x : json) : Prop :=
+  if strict then exists z, x = JInt z else exists z, as_int x = Some z.
+
 (* ---- field types (effective: no alias, no $inherit) *)
 
-Definition int_ft_doc (P : Z -> option Z -> json -> Prop) (classes : list string) (j : json) : Prop :=
+Definition int_ft_doc (strict : bool) (classes : list string) (j : json) : Prop :=
   exists m, j = JObj m /\
     required m "class" (str_in classes) /\
-    required m "size" (P 1%Z (Some 64%Z)) /\
-    optional m "alignment" (P 1%Z None) /\
+    required m "size" (intP strict 1%Z (Some 64%Z)) /\
+    optional m "alignment" (intP strict 1%Z None) /\
     optional m "preferred-display-base" (str_in base_names) /\
     only_keys m ["class"; "size"; "alignment"; "preferred-display-base"].
 
@@ -84,154 +102,161 @@ Definition enum_range (P : json -> Prop) (r : json) : Prop :=
   P r \/ exists a b, r = JArr [a; b] /\ P a /\ P b.
 Definition enum_mapping (P : json -> Prop) (x : json) : Prop :=
   exists l, x = JArr l /\ l <> [] /\ forall r, In r l -> enum_range P r.
-Definition is_int_val (x : json) : Prop := exists z, as_int x = Some z.
-Definition enum_ft_doc (P : Z -> option Z -> json -> Prop) (classes : list string) (j : json) : Prop :=
+Definition mappings_doc (strict : bool) (x : json) : Prop :=
+  (strict = false /\ x = JNull) \/
+  exists mm, x = JObj mm /\ mm <> [] /\ forall k v, In (k, v) mm -> enum_mapping (is_int strict) v.
+Definition enum_ft_doc (strict : bool) (classes : list string) (j : json) : Prop :=
   exists m, j = JObj m /\
     required m "class" (str_in classes) /\
-    required m "size" (P 1%Z (Some 64%Z)) /\
-    optional m "alignment" (P 1%Z None) /\
+    required m "size" (intP strict 1%Z (Some 64%Z)) /\
+    optional m "alignment" (intP strict 1%Z None) /\
     optional m "preferred-display-base" (str_in base_names) /\
-    required m "mappings" (fun x => exists mm, x = JObj mm /\ mm <> [] /\
-                                     forall k v, In (k, v) mm -> enum_mapping is_int_val v) /\
+    required m "mappings" (mappings_doc strict) /\
     only_keys m ["class"; "size"; "alignment"; "preferred-display-base"; "mappings"].
 
-Definition real_ft_doc (j : json) : Prop :=
+Definition real_size (strict : bool) (x : json) : Prop :=
+  if strict then x = JInt 32 \/ x = JInt 64
+  else exists z, as_int x = Some z /\ (z = 32 \/ z = 64)%Z.
+Definition real_ft_doc (strict : bool) (j : json) : Prop :=
   exists m, j = JObj m /\
     required m "class" (str_in real_names) /\
-    required m "size" (fun x => exists z, as_int x = Some z /\ (z = 32 \/ z = 64)%Z) /\
-    optional m "alignment" (int_val 1%Z None) /\
+    required m "size" (real_size strict) /\
+    optional m "alignment" (intP strict 1%Z None) /\
     only_keys m ["class"; "size"; "alignment"].
 
 Definition string_ft_doc (j : json) : Prop :=
   exists m, j = JObj m /\ required m "class" (str_in string_names) /\ only_keys m ["class"].
 
 (* structure members: a sequence of single-entry mappings name -> {field-type: FT} *)
-Definition member_doc (FT : json -> Prop) (x : json) : Prop :=
-  exists name mo, x = JObj [(name, JObj mo)] /\ ident_or_nl name /\
-    required mo "field-type" FT /\ only_keys mo ["field-type"].
-Definition members_doc (FT : json -> Prop) (x : json) : Prop :=
-  exists l, x = JArr l /\ forall e, In e l -> member_doc FT e.
+Definition member_obj (FT : json -> Prop) (v : json) : Prop :=
+  exists mo, v = JObj mo /\ required mo "field-type" FT /\ only_keys mo ["field-type"].
+Definition member_doc (strict : bool) (FT : json -> Prop) (x : json) : Prop :=
+  exists name v, x = JObj [(name, v)] /\
+    (strict = true -> ident_strict name = true /\ member_obj FT v) /\
+    (strict = false -> match_ident name = true -> ident_or_nl name /\ member_obj FT v).
+Definition members_doc (strict : bool) (FT : json -> Prop) (x : json) : Prop :=
+  exists l, x = JArr l /\ forall e, In e l -> member_doc strict FT e.
 
-Definition struct_ft_doc (FT : json -> Prop) (j : json) : Prop :=
+Definition struct_ft_doc (strict : bool) (FT : json -> Prop) (j : json) : Prop :=
   exists m, j = JObj m /\
     required m "class" (str_in struct_names) /\
-    optional m "minimum-alignment" (int_val 1%Z None) /\
-    optional m "members" (members_doc FT) /\
+    optional m "minimum-alignment" (intP strict 1%Z None) /\
+    optional m "members" (members_doc strict FT) /\
     only_keys m ["class"; "minimum-alignment"; "members"].
 
-(* static array: [len_required] is the documented form; the schema only gives the other *)
-Definition static_array_ft_doc (len_required : bool) (FT : json -> Prop) (j : json) : Prop :=
+Definition static_array_ft_doc (strict : bool) (FT : json -> Prop) (j : json) : Prop :=
   exists m, j = JObj m /\
     required m "class" (str_in sarray_names) /\
     required m "element-field-type" FT /\
-    (if len_required then required m "length" (int_val 0%Z None)
-     else forall x, lookup "length" m = Some x -> int_val 0%Z None x) /\
+    (if strict then required m "length" (intP strict 0%Z None)
+     else present m "length" (intP strict 0%Z None)) /\
     only_keys m ["class"; "element-field-type"; "length"].
 
-Definition dynamic_array_ft_doc (FT : json -> Prop) (j : json) : Prop :=
+Definition dynamic_array_ft_doc (strict : bool) (FT : json -> Prop) (j : json) : Prop :=
   exists m, j = JObj m /\
     required m "class" (str_in darray_names) /\
-    required m "element-field-type" FT /\
-    only_keys m ["class"; "element-field-type"].
+    (strict = true -> required m "element-field-type" FT /\ only_keys m ["class"; "element-field-type"]).
 
-(* The whole field type tree.  [strict] = the documentation ([true]) or what the unchanged
-   schemas enforce ([false]: static array length optional, dynamic array nodes unconstrained
-   beyond their class). *)
+(* the whole field type tree *)
 Inductive ft_doc (strict : bool) : json -> Prop :=
-| FtUint j : int_ft_doc int_val uint_names j -> ft_doc strict j
-| FtSint j : int_ft_doc int_val sint_names j -> ft_doc strict j
-| FtUenum j : enum_ft_doc int_val uenum_names j -> ft_doc strict j
-| FtSenum j : enum_ft_doc int_val senum_names j -> ft_doc strict j
-| FtReal j : real_ft_doc j -> ft_doc strict j
+| FtUint j : int_ft_doc strict uint_names j -> ft_doc strict j
+| FtSint j : int_ft_doc strict sint_names j -> ft_doc strict j
+| FtUenum j : enum_ft_doc strict uenum_names j -> ft_doc strict j
+| FtSenum j : enum_ft_doc strict senum_names j -> ft_doc strict j
+| FtReal j : real_ft_doc strict j -> ft_doc strict j
 | FtString j : string_ft_doc j -> ft_doc strict j
 | FtSArray j : static_array_ft_doc strict (ft_doc strict) j -> ft_doc strict j
-| FtDArray j : dynamic_array_ft_doc (ft_doc strict) j -> ft_doc strict j
-| FtDArrayLoose j m : strict = false -> j = JObj m -> required m "class" (str_in darray_names) -> ft_doc strict j
-| FtStruct j : struct_ft_doc (ft_doc strict) j -> ft_doc strict j.
+| FtDArray j : dynamic_array_ft_doc strict (ft_doc strict) j -> ft_doc strict j
+| FtStruct j : struct_ft_doc strict (ft_doc strict) j -> ft_doc strict j.
 
 (* ---- the configuration *)
 
-(* a feature field type that must be an unsigned integer / enumeration field type *)
-Definition feature_uint_ft_doc (j : json) : Prop :=
-  int_ft_doc int_val uint_names j \/ enum_ft_doc int_val uenum_names j.
-(* true/false/null/field type *)
-Definition opt_or_def_feature_doc (x : json) : Prop := is_bool x \/ feature_uint_ft_doc x.
-(* true/null/field type (cannot be disabled) *)
-Definition opt_feature_doc (x : json) : Prop := x = JBool true \/ feature_uint_ft_doc x.
+(* a feature field type must be an unsigned integer / enumeration field type *)
+Definition feature_uint_ft_doc (strict : bool) (j : json) : Prop :=
+  int_ft_doc strict uint_names j \/ enum_ft_doc strict uenum_names j.
+(* true / false / field type (null = default) *)
+Definition opt_or_def_feature_doc (strict : bool) (x : json) : Prop :=
+  is_bool x \/ feature_uint_ft_doc strict x.
+(* true / field type (cannot be disabled; null = default) *)
+Definition opt_feature_doc (strict : bool) (x : json) : Prop :=
+  x = JBool true \/ feature_uint_ft_doc strict x.
 
-Definition name_doc (x : json) : Prop :=
-  exists s, x = JStr s /\ ident_or_nl s /\ ~ In s ctf_keywords.
+Definition name_doc (strict : bool) (x : json) : Prop :=
+  exists s, x = JStr s /\ identP strict s /\ ~ In s ctf_keywords.
 
 Definition ert_doc (strict : bool) (j : json) : Prop :=
   exists m, j = JObj m /\
-    optional m "log-level" (int_val 0%Z None) /\
-    optional m "specific-context-field-type" (struct_ft_doc (ft_doc strict)) /\
-    optional m "payload-field-type" (struct_ft_doc (ft_doc strict)) /\
+    optional m "log-level" (intP strict 0%Z None) /\
+    optional m "specific-context-field-type" (struct_ft_doc strict (ft_doc strict)) /\
+    optional m "payload-field-type" (struct_ft_doc strict (ft_doc strict)) /\
     only_keys m ["log-level"; "specific-context-field-type"; "payload-field-type"].
 
-Definition dst_packet_features_doc (x : json) : Prop :=
+Definition dst_packet_features_doc (strict : bool) (x : json) : Prop :=
   exists m, x = JObj m /\
-    optional m "total-size-field-type" opt_feature_doc /\
-    optional m "content-size-field-type" opt_feature_doc /\
-    optional m "beginning-timestamp-field-type" opt_or_def_feature_doc /\
-    optional m "end-timestamp-field-type" opt_or_def_feature_doc /\
-    optional m "discarded-event-records-counter-snapshot-field-type" opt_or_def_feature_doc /\
-    optional m "sequence-number-field-type" opt_or_def_feature_doc /\
+    optional m "total-size-field-type" (opt_feature_doc strict) /\
+    optional m "content-size-field-type" (opt_feature_doc strict) /\
+    optional m "beginning-timestamp-field-type" (opt_or_def_feature_doc strict) /\
+    optional m "end-timestamp-field-type" (opt_or_def_feature_doc strict) /\
+    optional m "discarded-event-records-counter-snapshot-field-type" (opt_or_def_feature_doc strict) /\
+    optional m "sequence-number-field-type" (opt_or_def_feature_doc strict) /\
     only_keys m ["total-size-field-type"; "content-size-field-type"; "beginning-timestamp-field-type";
                  "end-timestamp-field-type"; "discarded-event-records-counter-snapshot-field-type";
                  "sequence-number-field-type"].
-Definition dst_er_features_doc (x : json) : Prop :=
+Definition dst_er_features_doc (strict : bool) (x : json) : Prop :=
   exists m, x = JObj m /\
-    optional m "type-id-field-type" opt_or_def_feature_doc /\
-    optional m "timestamp-field-type" opt_or_def_feature_doc /\
+    optional m "type-id-field-type" (opt_or_def_feature_doc strict) /\
+    optional m "timestamp-field-type" (opt_or_def_feature_doc strict) /\
     only_keys m ["type-id-field-type"; "timestamp-field-type"].
-Definition dst_features_doc (x : json) : Prop :=
+Definition dst_features_doc (strict : bool) (x : json) : Prop :=
   exists m, x = JObj m /\
-    optional m "packet" dst_packet_features_doc /\
-    optional m "event-record" dst_er_features_doc /\
+    optional m "packet" (dst_packet_features_doc strict) /\
+    optional m "event-record" (dst_er_features_doc strict) /\
     only_keys m ["packet"; "event-record"].
 
-(* a non-empty mapping whose keys are identifiers and whose values satisfy P *)
-Definition named_map (nonempty : bool) (P : json -> Prop) (x : json) : Prop :=
+(* a mapping whose keys are identifiers and whose values satisfy P *)
+Definition named_map (strict : bool) (nonempty : bool) (P : json -> Prop) (x : json) : Prop :=
   exists m, x = JObj m /\ (nonempty = true -> m <> []) /\
-    forall k v, In (k, v) m -> ident_or_nl k /\ P v.
+    forall k v, In (k, v) m -> identP strict k /\ P v.
 
 Definition dst_doc (strict : bool) (j : json) : Prop :=
   exists m, j = JObj m /\
     optional m "$is-default" is_bool /\
-    optional m "$default-clock-type-name" name_doc /\
-    optional m "$features" dst_features_doc /\
-    optional m "packet-context-field-type-extra-members" (members_doc (ft_doc strict)) /\
-    optional m "event-record-common-context-field-type" (struct_ft_doc (ft_doc strict)) /\
-    required m "event-record-types" (named_map true (ert_doc strict)) /\
+    optional m "$default-clock-type-name" (name_doc strict) /\
+    optional m "$features" (dst_features_doc strict) /\
+    optional m "packet-context-field-type-extra-members" (members_doc strict (ft_doc strict)) /\
+    optional m "event-record-common-context-field-type" (struct_ft_doc strict (ft_doc strict)) /\
+    required m "event-record-types" (named_map strict true (ert_doc strict)) /\
     only_keys m ["$is-default"; "$default-clock-type-name"; "$features";
                  "packet-context-field-type-extra-members";
                  "event-record-common-context-field-type"; "event-record-types"].
 
-Definition uuid_or_nl (s : string) : Prop := match_uuid s = true.
-Definition clock_offset_doc (x : json) : Prop :=
+(* the canonical textual form of a UUID; [false]: possibly followed by one newline *)
+Definition uuidP (strict : bool) (s : string) : Prop :=
+  if strict then match_uuid s = true /\ String.length s = 36 else match_uuid s = true.
+Definition clock_offset_doc (strict : bool) (x : json) : Prop :=
   exists m, x = JObj m /\
-    optional m "cycles" (int_val 0%Z None) /\ optional m "seconds" (int_val 0%Z None) /\
+    optional m "cycles" (intP strict 0%Z None) /\ optional m "seconds" (intP strict 0%Z None) /\
     only_keys m ["cycles"; "seconds"].
-Definition clock_type_doc (j : json) : Prop :=
+Definition clock_type_doc (strict : bool) (j : json) : Prop :=
   exists m, j = JObj m /\
-    optional m "uuid" (fun x => exists s, x = JStr s /\ uuid_or_nl s) /\
+    optional m "uuid" (fun x => exists s, x = JStr s /\ uuidP strict s) /\
     optional m "description" is_str /\
-    optional m "frequency" (int_val 1%Z None) /\
-    optional m "precision" (int_val 0%Z None) /\
-    optional m "offset" clock_offset_doc /\
+    optional m "frequency" (intP strict 1%Z None) /\
+    optional m "precision" (intP strict 0%Z None) /\
+    optional m "offset" (clock_offset_doc strict) /\
     optional m "origin-is-unix-epoch" is_bool /\
     optional m "$c-type" is_str /\
     only_keys m ["uuid"; "description"; "frequency"; "precision"; "offset"; "origin-is-unix-epoch"; "$c-type"].
 
-Definition trace_type_features_doc (x : json) : Prop :=
+Definition size_is (z : Z) (x : json) : Prop :=
+  exists mm, x = JObj mm /\ forall s, lookup "size" mm = Some s -> as_int s = Some z.
+Definition trace_type_features_doc (strict : bool) (x : json) : Prop :=
   exists m, x = JObj m /\
     optional m "magic-field-type"
-      (fun x => is_bool x \/ (feature_uint_ft_doc x /\
-                              exists mm, x = JObj mm /\ forall s, lookup "size" mm = Some s -> as_int s = Some 32%Z)) /\
+      (fun x => is_bool x \/ (feature_uint_ft_doc strict x /\ size_is 32%Z x)) /\
     optional m "uuid-field-type"
-      (fun x => is_bool x \/ static_array_ft_doc false feature_uint_ft_doc x) /\
-    optional m "data-stream-type-id-field-type" opt_or_def_feature_doc /\
+      (fun x => is_bool x \/ static_array_ft_doc strict (feature_uint_ft_doc strict) x) /\
+    optional m "data-stream-type-id-field-type" (opt_or_def_feature_doc strict) /\
     only_keys m ["magic-field-type"; "uuid-field-type"; "data-stream-type-id-field-type"].
 
 Definition trace_type_doc (strict : bool) (j : json) : Prop :=
@@ -240,38 +265,39 @@ Definition trace_type_doc (strict : bool) (j : json) : Prop :=
     present m "trace-byte-order" (str_in byte_order_names) /\
     (has_key "native-byte-order" m = true /\ has_key "trace-byte-order" m = false \/
      has_key "native-byte-order" m = false /\ has_key "trace-byte-order" m = true) /\
-    optional m "uuid" (fun x => exists s, x = JStr s /\ (uuid_or_nl s \/ s = "auto")) /\
-    optional m "$features" trace_type_features_doc /\
-    present m "clock-types" (named_map false clock_type_doc) /\
-    required m "data-stream-types" (named_map true (dst_doc strict)) /\
+    optional m "uuid" (fun x => exists s, x = JStr s /\ (uuidP strict s \/ s = "auto")) /\
+    optional m "$features" (trace_type_features_doc strict) /\
+    present m "clock-types" (named_map strict false (clock_type_doc strict)) /\
+    required m "data-stream-types" (named_map strict true (dst_doc strict)) /\
     only_keys m ["native-byte-order"; "trace-byte-order"; "uuid"; "$features"; "clock-types"; "data-stream-types"].
 
-Definition env_doc (x : json) : Prop :=
-  exists m, x = JObj m /\ forall k v, In (k, v) m -> ident_or_nl k /\ (is_str v \/ is_int_val v).
+Definition env_doc (strict : bool) (x : json) : Prop :=
+  exists m, x = JObj m /\ forall k v, In (k, v) m -> identP strict k /\ (is_str v \/ is_int strict v).
 Definition trace_doc (strict : bool) (j : json) : Prop :=
   exists m, j = JObj m /\
     required m "type" (trace_type_doc strict) /\
-    optional m "environment" env_doc.
+    optional m "environment" (env_doc strict) /\
+    (if strict then only_keys m ["type"; "environment"] else True).
 
-Definition prefix_doc (x : json) : Prop :=
-  name_doc x \/
-  exists m, x = JObj m /\ required m "identifier" name_doc /\ required m "file-name" is_str /\
+Definition prefix_doc (strict : bool) (x : json) : Prop :=
+  name_doc strict x \/
+  exists m, x = JObj m /\ required m "identifier" (name_doc strict) /\ required m "file-name" is_str /\
             only_keys m ["identifier"; "file-name"].
 Definition header_opts_doc (x : json) : Prop :=
   exists m, x = JObj m /\
     present m "identifier-prefix-definition" is_bool /\
     present m "default-data-stream-type-name-definition" is_bool /\
     only_keys m ["identifier-prefix-definition"; "default-data-stream-type-name-definition"].
-Definition codegen_opts_doc (x : json) : Prop :=
-  exists m, x = JObj m /\ present m "prefix" prefix_doc /\ present m "header" header_opts_doc /\
+Definition codegen_opts_doc (strict : bool) (x : json) : Prop :=
+  exists m, x = JObj m /\ present m "prefix" (prefix_doc strict) /\ present m "header" header_opts_doc /\
             only_keys m ["prefix"; "header"].
-Definition options_doc (x : json) : Prop :=
-  exists m, x = JObj m /\ present m "code-generation" codegen_opts_doc /\ only_keys m ["code-generation"].
+Definition options_doc (strict : bool) (x : json) : Prop :=
+  exists m, x = JObj m /\ present m "code-generation" (codegen_opts_doc strict) /\ only_keys m ["code-generation"].
 
 Definition config_doc (strict : bool) (j : json) : Prop :=
   exists m, j = JObj m /\
     required m "trace" (trace_doc strict) /\
-    present m "options" options_doc /\
+    present m "options" (options_doc strict) /\
     only_keys m ["options"; "trace"].
 
 (* "the total size field type is at least as large as the content size field type"
